@@ -21,23 +21,26 @@ func NewPreviewReader(l zerolog.Logger) previewReader {
 }
 
 func (pr *previewReader) RenderPreview(r io.Reader, h meta.PreviewHeader) error {
-	img := make([]byte, h.Size)
+	// h.Size comes from the file: grow the image with the data actually
+	// delivered instead of allocating the stated size up front.
+	const maxSize = uint32(2048)
+	img := make([]byte, 0, maxSize)
 	offset := uint32(0)
-	maxSize := uint32(2048)
-	for {
-		maxOffset := offset + maxSize
-		if h.Size < maxOffset {
-			maxOffset = h.Size
+	for offset < h.Size {
+		n := h.Size - offset
+		if n > maxSize {
+			n = maxSize
 		}
-
-		readLength, err := r.Read(img[offset:maxOffset])
+		img = append(img, make([]byte, n)...)
+		readLength, err := r.Read(img[offset : offset+n])
+		img = img[:offset+uint32(readLength)]
 		if err != nil {
 			if err == io.EOF {
 				break
 			}
 			pr.logError(err).
 				Uint32("offset", offset).
-				Uint32("maxOffset", maxOffset).
+				Uint32("maxOffset", offset+n).
 				Msgf("error read preview image")
 			return err
 		}
